@@ -10,7 +10,7 @@ INST = P + "inst::Inst"
 TYPE = P + "inst::Type"
 PSEUDO = P + "inst::PseudoType"
 PNODE = P + "node::ParserNode"
-IPROPS = P + "trait_instruction_properties::InstructionProperties"
+IPROPS = "InstructionProperties"
 
 
 def ref(name):
@@ -51,16 +51,16 @@ def payload_binding(arm, variant):
     """name bound to the tuple payload of `variant` in this arm's pattern (or None)."""
     def rec(p):
         k = p.get("k")
-        if k == "Or":
+        if k == "POr":
             for q in p["pats"]:
                 r = rec(q)
                 if r is not None:
                     return r
-        if k in ("Ref",):
+        if k in ("PRef",):
             return rec(p["pat"])
-        if k == "TupleStruct" and short(p.get("res")) == variant and p["pats"]:
+        if k == "PTupleStruct" and short(p.get("res")) == variant and p["pats"]:
             q = p["pats"][0]
-            if q.get("k") == "Binding":
+            if q.get("k") == "PBinding":
                 return q["name"]
         return None
     return rec(arm["pat"])
@@ -142,7 +142,7 @@ def from_str_table(F, R, ty, key):
         sc = peel(best["scrut"])
         names = {n["res"] for n in walk(best["scrut"]) if n.get("k") == "Path" and n.get("res_kind") == "Local"}
         for n in walk(f["hir"]["value"]):
-            if n.get("k") == "Let" and n.get("init") and n["pat"].get("k") == "Binding" and n["pat"]["name"] in names:
+            if n.get("k") == "Let" and n.get("init") and n["pat"].get("k") == "PBinding" and n["pat"]["name"] in names:
                 if any(x.get("k") == "MethodCall" and x.get("name") == "to_lowercase" for x in walk(n["init"])):
                     lowered = True
     return best, lowered, p
